@@ -277,22 +277,25 @@ Definition cast (cfg : config) (src tgt : ty) (v : val) : res :=
   | r => r
   end.
 
-(* ---- the pinned code before the two fix commits ------------------------------------------------ *)
+(* ---- the pinned code before the three fix commits ---------------------------------------------- *)
 Module Legacy.
   Definition unsigned_to_signed (s t : ty) : bool :=
     match s, t with
     | TByte, TSByte | TUInt16, TInt16 | TUInt32, TInt32 | TUInt64, TInt64 => true
     | _, _ => false
     end.
-  (* `(v as i8).into()` instead of try_from in the four unsigned-to-signed arms; the float arms of
-     cast used cast_to_integer!(f64::trunc(v + 0.5), f64, to) *)
+  (* `(v as i8).into()` instead of try_from in the four unsigned-to-signed arms of convert; the float
+     arms of cast used cast_to_integer!(f64::trunc(v + 0.5), f64, to); cast had no UInt64 -> Int32 arm *)
   Definition cfg : config :=
     {| c_convert := map (fun row => match row with
                                     | (s, t, RTry) => if unsigned_to_signed s t then (s, t, RAs) else row
                                     | _ => row end) (c_convert gen_cfg);
        c_cast := map (fun row => match row with
                                  | (s, t, XFloat ARound) => (s, t, XInt ATruncHalf)
-                                 | _ => row end) (c_cast gen_cfg);
+                                 | _ => row end)
+                     (filter (fun row => match row with
+                                         | (TUInt64, TInt32, _) => false
+                                         | _ => true end) (c_cast gen_cfg));
        c_int_neg := OLt; c_int_lo := OGe; c_int_hi := OLe;
        c_fl_lo := OGe; c_fl_hi := OLt; c_fl_plus := true |}.
 End Legacy.
